@@ -12,6 +12,7 @@ from jugverif import core
 LEVEL = 'proof'
 THEOREMS = ['Jug.C19.live_never_failed', 'Jug.C19.start_inv', 'Jug.C19.dead_eventually_failed', 'Jug.C19.terminates_parent_gone', 'Jug.C19.terminates_lock_gone',
             'Jug.C19.constants_safe', 'Jug.C19.loop_matches', 'Jug.C19.exits_match', 'Jug.C19.helper_started_plainly', 'Jug.C19.round_live',
+            'Jug.C19.run_mtime_le_now', 'Jug.C19.lock_gone_stops', 'Jug.C19.dead_worker_run', 'Jug.C19.stopped_is_final', 'Jug.C19.runEnv_live',
             'Jug.KALockProps.held_lock_has_helper', 'Jug.KALockProps.get_spec', 'Jug.KALockProps.let_go_stops_helper', 'Jug.KALockProps.no_orphans_without_interference']
 
 
@@ -436,6 +437,7 @@ def check(run):
     drv = core.Driver() if run.driver_ok else None
     try:
         lock_object_family(run, drv, quick)
+        whole_life_family(run, drv, quick, k)
     finally:
         if drv is not None:
             drv.close()
@@ -566,6 +568,72 @@ def lock_object_family(run, drv, quick):
                         run.obligation('correspondence keep-alive lock object model=code', False, 'after %s: model %s, code %s' % (ops[:kbad + 1], (ans.get('trace') or [None] * (kbad + 1))[kbad], real[kbad]))
     finally:
         core.rm_rf(scratch)
+
+
+class SimRec(Sim):
+    """Sim that records, per completed round, the overshoot and what the helper could see at that wake-up"""
+
+    def __init__(self, *a, **k):
+        Sim.__init__(self, *a, **k)
+        self.sched = []
+        self.round_now = 0.0
+
+    def sleep(self, s):
+        before = self.now
+        Sim.sleep(self, s)          # raises Done when the horizon is passed: that round is not completed and not recorded
+        delta = self.now - before - s
+        if self.death is not None and self.now - self.t0 >= self.death:
+            env = 'parentGone'
+        elif not self.exists:
+            env = 'lockGone'
+        else:
+            env = 'ok'
+        self.sched.append([int(delta), env, s])
+        self.round_now = self.now - self.t0
+
+
+def whole_life_family(run, drv, quick, k):
+    """whole lives of the real helper main() on the simulated clock - integer overshoots (also beyond the bound of the theorem), the worker dying and/or the lock
+    file disappearing at arbitrary instants, observation stopped at an arbitrary horizon - against Jug.KeepAlive.runEnv: still running or not, the instant of the
+    last wake-up, the lock's modification time, and the real is_failed() of another client one second before / at the instant the model says the lock expires"""
+    if drv is None:
+        return
+    rng = core.rng_for(run.seed, 'c19-life')
+    P, R, E = k['period'], k['rounds'], k['expiry']
+    bad = 0
+    for i in range(60 if quick else 600):
+        span = rng.choice([3 * P, R * P, 3 * R * P, 12 * R * P])
+        death = rng.randint(0, span) if rng.random() < 0.45 else None
+        removal = rng.randint(0, span) if rng.random() < 0.45 else None
+        hi = rng.choice([0, 1, 10, 10, 40])
+        seq = [rng.randint(0, hi) for _ in range(64)]
+        sim = SimRec(lambda r, seq=seq: seq[r % 64], death=death, removal=removal, horizon=span + rng.randint(0, R * P))
+        st = run_monitor(sim)
+        if any(x[2] != P for x in sim.sched):
+            run.count('whole_life_rounds_with_other_sleep')     # the helper does not sleep `period` every round: outside this model (loop_matches reports it)
+            continue
+        ans = drv.ask({'op': 'karun', 'period': P, 'rounds': R, 'expiry': E, 'sched': [x[:2] for x in sim.sched]})
+        run.corr_programs += 1
+        run.case(('whole-life', death is not None, removal is not None, st[0], len(sim.refreshes) > 0), nontrivial=True)
+        run.count('whole_life_' + st[0])
+        real = {'running': st[0] == 'running', 'now': int(sim.round_now)}
+        if sim.exists:
+            real['mtime'] = int(sim.mtime - sim.t0)
+        model = {kk: ans.get(kk) for kk in real}
+        detail = None
+        if 'error' in ans or model != real:
+            detail = 'model %s, code %s' % (ans if 'error' in ans else model, real)
+        elif sim.exists:
+            for at in (ans['failedAt'] - 1, ans['failedAt']):
+                if real_is_failed(sim, at) != (at >= ans['failedAt']):
+                    detail = 'is_failed() at +%d s: code %s, model %s (mtime +%d, expiry %d)' % (at, real_is_failed(sim, at), at >= ans['failedAt'], ans['mtime'], E)
+        if detail is not None:
+            bad += 1
+            if bad <= 3:
+                run.corr_disagreements += 1
+                run.obligation('correspondence keep-alive helper whole life model=code', False,
+                               'death %s removal %s horizon %s overshoots %s...: %s' % (death, removal, sim.horizon, seq[:8], detail))
+        sim.close()
 
 
 def real_helper(run, quick):
